@@ -708,6 +708,29 @@ type locWorld struct {
 	provider *core.SimpleLocationProvider
 }
 
+// storeIds: the ids in the location's storage right now (C08: "the deletions reach storage" is judged
+// at the removal itself, on this observation), or nil.
+func (w *locWorld) storeIds(ctx *core.Context, name string) interface{} {
+	st := w.stores[name]
+	if st == nil {
+		return nil
+	}
+	pairs, err := st.Load(ctx, name)
+	if err != nil {
+		return nil
+	}
+	ids := make([]string, 0, len(pairs))
+	for _, p := range pairs {
+		ids = append(ids, string(p.K))
+	}
+	sort.Strings(ids)
+	out := make([]interface{}, 0, len(ids))
+	for _, id := range ids {
+		out = append(out, id)
+	}
+	return out
+}
+
 func (w *locWorld) open(name string) error {
 	ctx := core.NewContext("rh")
 	ctx.Verbosity = core.NOTHING
@@ -972,6 +995,7 @@ func execLocOp(w *locWorld, o map[string]interface{}) {
 			res = errRes(err)
 		} else {
 			res = map[string]interface{}{"ok": true}
+			o["store_after"] = w.storeIds(ctx, name)
 		}
 	case "remrule":
 		_, err := loc.RemRule(ctx, id)
@@ -979,6 +1003,7 @@ func execLocOp(w *locWorld, o map[string]interface{}) {
 			res = errRes(err)
 		} else {
 			res = map[string]interface{}{"ok": true}
+			o["store_after"] = w.storeIds(ctx, name)
 		}
 	case "getfact":
 		f, err := loc.GetFact(ctx, id)
